@@ -721,7 +721,8 @@ class ScaledArrayView(ArrayView):
         return self.scaled_array()
 
     def _apply_scale(self, value):
-        return (value * self.scale) + self.offset
+        # a scale given as a Python int would keep the product in the (32 bit) type of the stored values
+        return (value * np.asarray(self.scale, dtype=np.float64)) + self.offset
 
     def _remove_scale(self, value):
         return np.round((value - self.offset) / self.scale)
